@@ -2,7 +2,7 @@
 import re, vcheck
 
 PID = "C07"
-MODULES = ["BeffVerif.Props.C07", "BeffVerif.Props.C07Print", "BeffVerif.Props.C07Keyof", "BeffVerif.Props.C07Idx"]
+MODULES = ["BeffVerif.Props.C07", "BeffVerif.Props.C07Print", "BeffVerif.Props.C07Keyof", "BeffVerif.Props.C07Idx", "BeffVerif.Props.C07Names"]
 AUDIT = "BeffVerif/Audit/C07.lean"
 HYP = {"NoObjectUnionOnLeft": "D25"}
 
